@@ -410,6 +410,7 @@ func c18Custom(t *testing.T, sc *world.Scenario, out *Outcome) {
 	out.SimMs = s.SimTime().Milliseconds()
 	out.Hash = s.Hash()
 	out.Hazards = s.Hazards
+	reportLockLeaks("C18", w, out)
 	for n, c := range s.HazardNames {
 		out.Probes["hazard:"+n] += c
 	}
